@@ -7,6 +7,7 @@
  * result = (open_status (header_status data_status...)... close_status archive_bytes) */
 #include <archive.h>
 #include <archive_entry.h>
+#include <locale.h>
 #include "val.h"
 
 struct sink { unsigned char *p; size_t n, cap; };
@@ -78,5 +79,8 @@ static void run_case(val *c)
 
 int main(int argc, char **argv)
 {
+	/* VERIF_LOCALE: locale the writers convert names from (default: the C locale the process starts in) */
+	const char *loc = getenv("VERIF_LOCALE");
+	if (loc && *loc && setlocale(LC_ALL, loc) == NULL) { fprintf(stderr, "no locale %s\n", loc); return 4; }
 	return v_foreach_line(argc > 1 ? argv[1] : NULL, run_case);
 }
